@@ -128,6 +128,8 @@ def gen_case(rng, tier):
         j = rng.choice(wr)
         variants.append({"at_op": j, "fault": {"kind": rng.choice(["commit", "committed", "fs.copy", "fs.copied", "fs.unlink"]),
                                                "nth": rng.choice([0, 0, 1, 2]), "mode": rng.choice(["error", "crash"])}})
+    if upd:
+        variants.append({"at_op": rng.choice(upd), "fault": {"kind": "sql", "nth": rng.randint(0, 9), "mode": rng.choice(["error", "locked", "cancel"])}})
     return {"cfg": cfg, "ops": ops, "variants": variants}
 
 
@@ -902,6 +904,12 @@ def fault_profile(steps, cfg, seed, clause_prefix, n_point_faults=2):
         #  shared connection - finer than the prefix granularity judged here - so only source failures are used there)
         for _ in range(n_point_faults if not cfg.get("memory") else 0):
             variants.append({"at_op": rng.choice(upd), "fault": {"frac": rng.random(), "mode": rng.choice(["error", "crash", "cancel", "crash"])}})
+        if not cfg.get("memory"):
+            # faults addressed by kind, so that the first statements of the import (one INSERT per arrival) and each of
+            # its commits are hit as often as the many file-system points
+            variants.append({"at_op": rng.choice(upd), "fault": {"kind": "sql", "nth": rng.randint(0, 9), "mode": rng.choice(["error", "error", "locked", "cancel"])}})
+            variants.append({"at_op": rng.choice(upd), "fault": {"kind": rng.choice(["commit", "committed"]), "nth": rng.randint(0, 3),
+                                                                 "mode": rng.choice(["error", "crash"])}})
     case = {"cfg": {"fmf": list(cfg.get("fmf") or []), "keep_order": False, "id_spec": cfg.get("id_spec"), "memory": bool(cfg.get("memory"))},
             "ops": ops, "variants": variants}
     out = run(case)
